@@ -22,13 +22,15 @@ DOC_TEXTS = [
     ("export-type", " export type X = 1;"), ("dquote", ' say "hi"'), ("backslash", " back\\slash"), ("non-ascii", " ünï 😀"),
     ("long", " " + "x" * 3000), ("at", " @param x {string}"), ("html", " <script>alert(1)</script>"), ("empty-line", ""),
     ("star", " * bullet"), ("import", ' import type { A } from "./a";'), ("brace", ' json {"a": 1} and {} and {{x}}'),
-    ("percent", " 100% {0} %s"),
+    ("percent", " 100% {0} %s"), ("leading-slash", "/ export type Evil = any;"), ("leading-slash", "/"),
 ]
 
 
 def doc_attr_lines(r, cls_text, form):
     """Rust source lines that attach the documentation text in the given form."""
     cls, text = cls_text
+    if (form.startswith("block") or form in ("line", "two-lines")) and text.startswith("/"):
+        text = " " + text       # `/**/` would be an empty Rust comment, `////` a plain comment
     if form == "line":
         return [f"///{text}"]
     if form == "two-lines":
